@@ -53,7 +53,7 @@ impl FStdlib {
     }
     const KEY_STYLES: u64 = 4;
     const VARIANTS: u64 = 8; // callback / key-function variants per function (those that take one)
-    const PATHS: u64 = 3;
+    const PATHS: u64 = 4;
 }
 
 impl Family for FStdlib {
@@ -151,10 +151,11 @@ impl Family for FStdlib {
                 imports.push(format!("std.{fname}"));
                 fname.to_string()
             }
-            _ => {
+            2 => {
                 imports.push("std".to_string() + ".row_to_value");
                 format!("std.{fname}")
             }
+            _ => format!("std.{fname}"),
         };
         let mut args: Vec<C> = Vec::new();
         if let Some(cb) = cb_expr.clone() {
@@ -173,6 +174,13 @@ impl Family for FStdlib {
         }
         let mut functions = vec![("main".to_string(), func(&[], main))];
         functions.extend(fns);
+        if path == 3 {
+            // the root module defines functions named like the library's own helpers and entry
+            // points: the library must keep using its own
+            for (name, params) in [("row_to_value", vec!["row"]), ("sorted_by_key", vec!["f", "t"]), ("min_by_key", vec!["f", "t"]), ("max_by_key", vec!["f", "t"]), ("filter", vec!["f", "t"]), ("to_array", vec!["t"])] {
+                functions.push((name.to_string(), func(&params, vec![sg("decoy_ran", s(name)), C::Return(b(s("decoy")))])));
+            }
+        }
         Module { submodules: vec![], functions, imports }
     }
 }
